@@ -8,6 +8,8 @@ import ast
 
 from ..frontend import AnalysisError, normalise, loc, mangle
 from ..typestate import Typestate, ExplosionError
+from .. import contexts as CX
+from ..values import Num
 
 PROP = "C07"
 LEVEL = "proof"
@@ -160,6 +162,8 @@ def run(prog, rep, tier='quick'):
     rep.rule('O3-call-assigns-psd', 'every non-raising path of C.__call__ assigns the psd cache')
     rep.rule('O5-derivation-from-fresh-cache', 'a store to the psd cache whose value is computed from the raw cache field is preceded on its path by a refresh (psd getter or self())')
     rep.rule('O8-sides-follows-layout', 'outside __init__ every path that writes the sides label also stores a cache value, sets modified=True, or runs with the cache known empty')
+    rep.rule('O9-data-owned', 'after construction the stored data array shares no storage with the constructor argument (D8 memory identity on the abstract run)')
+    rep.rule('O10-cache-rebound', 'every store to the cache field binds a new array; no element / slice / augmented store through the private field')
     rep.rule('O7-same-value-noop', 'for every scalar attribute the setter writes the backing field / sets modified only on a path guarded by a comparison of the stored value with the value being stored (old != new)')
     rep.rule('O6-N-follows-data', 'every store to the data length N is on a path that stores new data and takes its size')
     rep.rule('O4-range-paired', 'every path writing __NFFT (resp. __sampling) also updates _range.N (resp. '
@@ -243,6 +247,28 @@ def run(prog, rep, tier='quick'):
                 seen.add(('O1a-ok', setter.qname))
                 rep.proved('O1-setter-marks-modified', setter.qname, 'every non-raising path writes %s' % F,
                            'no same-value shortcut in the setter of an array whose getter hands out the stored object', swhere)
+            if a in ARRAY_ATTRS and ('O9', C.qname) not in seen:
+                # O9: the object keeps its OWN copy of the samples (D8 memory identity): after construction the stored array shares no
+                # storage with the caller's array -- otherwise the caller's later in-place edits change the data behind the cache
+                # without passing through the setter.  Decided on the abstract run of the constructor, whatever way the copy is made.
+                seen.add(('O9', C.qname))
+                from ..d1rules import ctor_args as _ctor_args
+                try:
+                    kw9 = _ctor_args(C, False, 'even', scale=False)
+                except AnalysisError:
+                    kw9 = None
+                if kw9 is not None and 'data' in kw9:
+                    kw9['data'].view_of = frozenset(["the caller's data array"])
+                    _r9, obj9, itp9, _ok9 = CX.run_class(prog, C.mod, C.name, [], kw9, call=False)
+                    d9 = obj9.f.get(F) if obj9 is not None else None
+                    if not isinstance(d9, Num):
+                        rep.undecided('O9-data-owned', C.qname, 'stored data', 'the stored data field is not an array value: %r' % (d9,), swhere)
+                    elif d9.view_of:
+                        rep.violation('O9-data-owned', C.qname, 'stored data', 'the object stores %s itself (or a zero-copy view of it): a later '
+                                      'in-place edit of that array by the caller changes the samples behind the cached PSD without going '
+                                      'through the setter, so psd keeps the estimate of the old samples' % ' / '.join(sorted(d9.view_of)), swhere)
+                    else:
+                        rep.proved('O9-data-owned', C.qname, 'stored data', 'shares no storage with the constructor argument', swhere)
             for p in spaths:
                 if p.end == 'raise':
                     continue
@@ -620,6 +646,38 @@ def run(prog, rep, tier='quick'):
                                   'keeps its layout and is not marked for recomputation: frequencies() and the next conversion read the '
                                   'cache under the wrong layout', loc(f.mod, f.node), p.describe())
     rep.floor('sides-label writes examined', n_o8, 3)
+    # O10: the cache field is re-bound to a fresh array, never written in place: the psd getter hands out the stored array itself,
+    # so `self.__psd[:] = new` silently overwrites the estimate a caller obtained before the re-evaluation
+    n_o10 = 0
+    for D in hier:
+        for mname, mnode in D.methods.items():
+            f = D.find_method(mname)
+            for st_ in ast.walk(mnode):
+                tg = []
+                if isinstance(st_, ast.Assign):
+                    tg = st_.targets
+                elif isinstance(st_, ast.AugAssign):
+                    tg = [st_.target]
+                for t_ in tg:
+                    tb_ = t_
+                    sub = False
+                    while isinstance(tb_, ast.Subscript):
+                        tb_, sub = tb_.value, True
+                    if isinstance(tb_, ast.Attribute) and isinstance(tb_.value, ast.Name) and tb_.value.id == 'self' \
+                            and mangle(D.name, tb_.attr) == PSD_FIELD:
+                        n_o10 += 1
+                        inplace = sub or isinstance(st_, ast.AugAssign)
+                        key = ('O10', f.qname, normalise(st_))
+                        if key in seen:
+                            continue
+                        seen.add(key)
+                        if inplace:
+                            rep.violation('O10-cache-rebound', f.qname, normalise(st_)[:70], 'the cached array is written in place: it is the '
+                                          'very array the psd getter returned earlier, so a result the caller still holds changes under '
+                                          'their hands when the object is re-evaluated', loc(f.mod, st_))
+                        else:
+                            rep.proved('O10-cache-rebound', f.qname, normalise(st_)[:70], 'the field is bound to a new object', loc(f.mod, st_))
+    rep.floor('cache stores examined', n_o10, 2)
     # Range itself: df recomputed from the current N and sampling after each change
     R = prog.cls('psd', 'Range')
     n_range = 0
